@@ -32,7 +32,7 @@ CHECKS = {
  "C09": dict(
    engine="histsim",
    technique="deterministic simulation: seeded histories of phase/unphase/re-phase runs over one variant file against an abstract phase-store model; what each run wrote is captured at the writer seam",
-   level_text="Seeded exploration of operation histories (phase with PS/HP tag, library, sample/chromosome subset, --only-snvs, --distrust-genotypes, rarely used algorithms and options, bcf/bgzip outputs, DEBUG logging; phase from a phased VCF; unphase), every operation a process of its own running the real whatshap code on generated worlds, with round-trip, no-mixing, isolation, PS/HP-equivalence and block-reproduction oracles evaluated after every operation; plus a regression corpus of minimised histories.",
+   level_text="Seeded exploration of operation histories (phase with PS/HP tag, library, sample/chromosome subset in any order, pedigree mode on family worlds (--ped, --use-ped-samples, --no-genetic-haplotyping), --only-snvs, --distrust-genotypes, rarely used algorithms and options, bcf/bgzip outputs, DEBUG logging; phase from a phased VCF; unphase), every operation a process of its own running the real whatshap code on generated worlds, with round-trip, no-mixing, isolation, PS/HP-equivalence and block-reproduction oracles evaluated after every operation; plus a regression corpus of minimised histories.",
    level_note="Trusts pysam/htslib for reading what was written, the world generator (error-free reads of known haplotypes) and the writer-seam capture (PhasedVcfWriter.write arguments) as the definition of 'the phase that was written'.",
    design_ref="DESIGN.md §4 C09"),
  "C13": dict(
@@ -49,8 +49,8 @@ CHECKS = {
    design_ref="DESIGN.md §4 C17"),
  "C16": dict(
    engine="nodesim",
-   technique="deterministic simulation: every scenario executed by several simulated runtime nodes (hash seed x worker-pool schedule under a seeded dispatcher x thread counts x clock faults x dirty-directory / second execution x process environment x --debug x file modification times) and compared record-for-record with a fault-free reference node",
-   level_text="Seeded search over runtime configurations and worker-pool schedules for every subcommand (90 verified command lines over the repo's own inputs plus generated worlds with ties and collisions); all nodes' normalised outputs and exit status must equal the reference node's. Pool scheduling (dispatch, delivery, ready()/timed-wait polling, concurrent.futures) is owned by SimPool with real forked workers, the clock and dates by SimClock; a regression corpus of minimised cases from 13 seeded changes and 4 repaired defects is replayed on every run.",
+   technique="deterministic simulation: every scenario executed by several simulated runtime nodes (hash seed x worker-pool schedule under a seeded dispatcher x thread counts x clock faults x dirty-directory / second execution x process environment x shared or private scratch space (TMPDIR, HOME) x --debug x file modification times) and compared record-for-record with a fault-free reference node",
+   level_text="Seeded search over runtime configurations and worker-pool schedules for every subcommand (90 verified command lines over the repo's own inputs plus generated worlds with ties and collisions); all nodes' normalised outputs and exit status must equal the reference node's. Pool scheduling (dispatch, delivery, ready()/timed-wait polling, concurrent.futures) is owned by SimPool with real forked workers, the clock and dates by SimClock; a regression corpus of minimised cases from the seeded changes of DESIGN.md \u00a712 and 4 repaired defects is replayed on every run.",
    level_note="Not behind a seam and therefore uncontrolled: htslib compression threads (only their number is chosen), the external cbc solver, memory addresses (perturbed only as a side effect of node configuration). Hash-seed sampling realises set orders jointly, not independently. A scenario whose reference disagrees with its identically configured twin is re-run and reported only if the disagreement persists; node time-outs are inconclusive, never an alarm.",
    design_ref="DESIGN.md §4 C16, §10, §12"),
 }
